@@ -24,6 +24,8 @@ NOT_PROVED = ["libm cos/sin/radians are the real functions up to rounding (C18.a
 ASSUMPTIONS = ["np.cos/np.sin/np.radians are the real functions up to rounding"]
 
 
+PROP_MODULES = ['C18', 'C18Ragged']
+
 def nontriv(recs):
     return any(gen.nontrivial_record(r) for r in recs)
 
@@ -42,7 +44,7 @@ def rotation(ctx):
         dt = rng.choice(DYADIC_DTS) if exact else gen.any_dt(rng)
         mk = (lambda: gen.dyadic_record(rng, n)) if exact else (lambda: gen.any_record(rng, n, dt)[1])
         ns, we = mk(), mk()
-        a_ns, a_we = eqsig.AccSignal(ns, dt), eqsig.AccSignal(we, dt)
+        a_ns, a_we = ctx.aged(eqsig.AccSignal, ns, dt), ctx.aged(eqsig.AccSignal, we, dt)
         ctx.hist('rotation/' + ('dyadic' if exact else 'mixed'))
         ctx.count_case(('rot', ns.tobytes(), we.tobytes(), dt), nontriv([ns, we]),
                        sample={'fn': 'combine_at_angle/compute_rotated', 'n': n, 'dt': dt} if i < 2 else None)
@@ -75,7 +77,11 @@ def rotation(ctx):
         measures = [('parameter', 'pga', lambda sg: sg.pga), ('parameter', 'pgv', lambda sg: sg.pgv),
                     ('parameter', 'arias_intensity', lambda sg: im.calc_arias_intensity(sg)[-1]),
                     ('func', 'scalar callable (sum of squares)', lambda sg: float(np.sum(sg.values ** 2))),
-                    ('func', 'array-valued callable (cumulative |a|; last element taken)', lambda sg: np.cumsum(np.abs(sg.values)))]
+                    ('func', 'array-valued callable (cumulative |a|; last element taken)', lambda sg: np.cumsum(np.abs(sg.values))),
+                    # a parameter NAME is getattr(combination, name) whatever its type: array-valued attributes are returned whole
+                    ('parameter', 'velocity', lambda sg: sg.velocity), ('parameter', 'values', lambda sg: sg.values),
+                    ('parameter', 'pgd', lambda sg: sg.pgd), ('parameter', 'displacement', lambda sg: sg.displacement),
+                    ('parameter', 'npts', lambda sg: sg.npts)]
         how, name, fn = measures[i % len(measures)]
         inputs = {'ns': ns, 'we': we, 'dt': dt, 'angle_off_ns': off, 'points': points, 'measure': name}
         ctx.hist('rotated/measure=' + name.split(' ')[0])
@@ -104,11 +110,13 @@ def rotation(ctx):
             want = []
             for d in deg:
                 val = fn(combine_at_angle(a_ns, a_we, d))
-                want.append(val[-1] if hasattr(val, '__len__') else val)
+                want.append(val[-1] if (how == 'func' and hasattr(val, '__len__')) else val)
             want = np.array(want, dtype=float)
             sc = max(float(np.max(np.abs(want))), 1e-300)
+            got = np.asarray(vals, dtype=float)
             ctx.oracle('C18.b the i-th value is exactly the measure of the combination at degrees[i]',
-                       len(vals) == len(want) and float(np.max(np.abs(np.asarray(vals, dtype=float) - want))) <= 1e-12 * sc, inputs)
+                       got.shape == want.shape and float(np.max(np.abs(got - want))) <= 1e-12 * sc, inputs,
+                       detail={'shape': got.shape, 'want_shape': want.shape})
         if i % 6 == 0:
             r1 = call_impl(compute_rotated, a_ns, a_we, angle_off_ns=off, points=5)
             ctx.oracle('C18.b without parameter and func compute_rotated raises ValueError', r1 == ('err', 'ValueError'), inputs, detail=r1)
